@@ -31,6 +31,9 @@ pub enum PatKind {
     SecondMount,
     /// arch/app.{}.log.gz (gzip build only)
     Gz,
+    /// arch/{}/app.log where the directories of odd indices live on a second
+    /// mount (symlinks): every shift crosses a filesystem boundary
+    DirSplit,
 }
 
 #[derive(Clone, Debug, Serialize, Deserialize, PartialEq)]
@@ -48,6 +51,8 @@ pub struct Names {
     /// pattern with the environment reference resolved
     pub pat_real: String,
     pub gz: bool,
+    /// DirSplit: where the directories of odd indices really live
+    pub split_root: Option<PathBuf>,
 }
 
 impl Names {
@@ -59,7 +64,7 @@ impl Names {
                 let a = arch.to_string_lossy().to_string();
                 match pat {
                     PatKind::Name => (format!("{}/app.{{}}.log", a), format!("{}/app.{{}}.log", a), false),
-                    PatKind::Dir => (format!("{}/{{}}/app.log", a), format!("{}/{{}}/app.log", a), false),
+                    PatKind::Dir | PatKind::DirSplit => (format!("{}/{{}}/app.log", a), format!("{}/{{}}/app.log", a), false),
                     PatKind::Repeated => (format!("{}/{{}}/app.{{}}.log", a), format!("{}/{{}}/app.{{}}.log", a), false),
                     PatKind::Env => {
                         std::env::set_var("VERIF_ARCH", &a);
@@ -73,9 +78,11 @@ impl Names {
                 }
             }
         };
+        let split = matches!(roller, RollerSpec::Fixed { pat: PatKind::DirSplit, .. });
         Names {
+            split_root: if split { root2.map(|p| p.to_path_buf()) } else { None },
             root: root.to_path_buf(),
-            root2: root2.map(|p| p.to_path_buf()),
+            root2: if split { None } else { root2.map(|p| p.to_path_buf()) },
             active: root.join("log").join("app.log"),
             pat_cfg,
             pat_real,
